@@ -447,7 +447,8 @@ def singular_bounded_instance(modes, tag, pinned=False):
             return {'D': 2, 'F': 2, 'mode': 'zero', 'fn': 'wmwf', 'seed': 0, 'mu': 0.0, 'd': B.given('d', np.zeros(1))}
         return {'D': B.choose('D', [2, 3, 5, 8]), 'F': B.choose('F', [1, 2, 5, 32]), 'mode': B.choose('mode', modes),
                 'fn': B.choose('fn', ['mvdr_souden', 'wmwf', 'mvdr_souden+ban', 'wmwf+ban']), 'seed': B.choose('seed', list(range(1000))),
-                'mu': B.choose('mu', [None, None, 0.0, 0.25, 4.0, 'frequency_dependent']), 'd': B.given('d', np.zeros(1))}
+                'mu': B.choose('mu', [None, None, 0.0, 0.25, 4.0, 'frequency_dependent']), 'd': B.given('d', np.zeros(1)),
+                'prec': B.choose('prec', ['c128', 'c128', 'c64']), 'ref': B.choose('ref', [0, 0, 'auto'])}
 
     def call(inp):
         rng = np.random.RandomState(inp['seed'])
@@ -473,6 +474,11 @@ def singular_bounded_instance(modes, tag, pinned=False):
                 v = cn(D, 1)
                 noi[f] = v @ np.conj(v.T)
         kw = {'ref_channel': 0} if 'souden' in inp['fn'] else {'reference_channel': 0}
+        if inp.get('ref') == 'auto' and inp['mode'] in ('zero', 'zero-noise', 'zero-row-and-column') and ('souden' in inp['fn'] or inp['mu'] is None):
+            # (not combined with the non-default distortion weights of the known finding: their NaN filter fails the selector's assertion)
+            kw = {}                                       # the reference channel is estimated by the library from the same PSDs
+        if inp.get('prec') == 'c64':
+            tgt, noi = tgt.astype(np.complex64), noi.astype(np.complex64)      # single-precision pipeline
         if 'wmwf' in inp['fn'] and inp['mu'] is not None:
             kw['distortion_weight'] = inp['mu']          # the speech-distortion trade-off, forwarded by the wrapper (0: Souden MVDR)
         w = bw.get_bf_vector(inp['fn'], tgt, noi, **kw)
@@ -488,8 +494,11 @@ def singular_bounded_instance(modes, tag, pinned=False):
             tag_ = '[%s,mu=%s,%s]' % (inp['fn'], inp['mu'], inp['mode'])
         yield 'finite-on-singular-and-zero-psds' + tag_, bool(np.all(np.isfinite(out['w'])))
         yield 'finite-on-regular-bins', bool(np.all(np.isfinite(np.asarray(out['w'])[out['clean']])))
-        if out['ref'] is not None:
-            yield 'regular-bins-unaffected-by-singular-neighbours', bool(np.allclose(out['w'][out['clean']], out['ref'], rtol=1e-9, atol=1e-12))
+        if out['ref'] is not None and not (inp.get('ref') == 'auto' and inp['mode'] in ('zero', 'zero-noise', 'zero-row-and-column')
+                                           and ('souden' in inp['fn'] or inp['mu'] is None)):
+            # (the automatically chosen reference channel is one choice for the whole stack, so it may depend on the neighbours by design)
+            tol = (1e-3, 1e-5) if inp.get('prec') == 'c64' else (1e-9, 1e-12)
+            yield 'regular-bins-unaffected-by-singular-neighbours', bool(np.allclose(out['w'][out['clean']], out['ref'], rtol=tol[0], atol=tol[1]))
 
     return Instance('C13', BW + 'get_bf_vector', 'bounded-%s-psds' % tag + ('-pinned-known-finding-wmwf-zero-distortion-weight' if pinned else ''),
                     make, call, ensures, mode='bounded', bounded_n=1 if pinned else 150, frame=False,
